@@ -1167,6 +1167,79 @@ fn fixed_third_party_invites(out: &mut Vec<Req>) {
     }
 }
 
+/// Deterministic cells: every room version x every event type with its own redaction rule x content
+/// carrying every key any version's table names, and for `m.room.member` every shape of
+/// `third_party_invite` (absent, empty, without `signed`, only `signed`, both) x membership:
+/// sign with the demanded servers, verify; redact, verify the copy; redact the copy again and verify
+/// (a redacted copy of a redacted copy is a redacted copy). Random generation reaches a cell such as
+/// (v11, member, `third_party_invite` without `signed`, membership != invite) about once in 1 500 events.
+fn fixed_redaction_cells(rng: &mut Rng, out: &mut Vec<Req>) {
+    let tpis = [
+        None,
+        Some(json!({})),
+        Some(json!({"display_name": "n"})),
+        Some(json!({"signed": {"mxid": "@c:b.example", "token": "t", "signatures": {"id.example": {"ed25519:0": "c2ln"}}}})),
+        Some(json!({"display_name": "n", "signed": {"mxid": "@c:b.example", "token": "t", "signatures": {}}})),
+    ];
+    for v in 1..=11u32 {
+        let r = rules(v);
+        for ty in [
+            "m.room.member", "m.room.create", "m.room.join_rules", "m.room.power_levels",
+            "m.room.history_visibility", "m.room.redaction", "m.room.aliases", "m.room.server_acl",
+            "m.room.message", "m.room.third_party_invite",
+        ] {
+            let variants: Vec<(Option<&Value>, &str)> = if ty == "m.room.member" {
+                tpis.iter().flat_map(|t| ["join", "invite", "leave"].into_iter().map(move |m| (t.as_ref(), m))).collect()
+            } else {
+                vec![(None, "join")]
+            };
+            for (tpi, membership) in variants {
+                let mut c = serde_json::Map::new();
+                for k in CONTENT_KEYS {
+                    c.insert((*k).to_owned(), json!(format!("v-{k}")));
+                }
+                c.insert("membership".into(), json!(membership));
+                c.insert("join_authorised_via_users_server".into(), json!("@auth:a.example"));
+                if let Some(t) = tpi {
+                    c.insert("third_party_invite".into(), t.clone());
+                }
+                let mut ev = to_obj(json!({
+                    "type": ty, "sender": "@a:a.example", "state_key": "@c:b.example", "room_id": "!r:a.example",
+                    "origin_server_ts": 1, "depth": 3, "prev_events": [], "auth_events": [], "origin": "a.example",
+                    "membership": "join", "prev_state": [], "redacts": "$x:a.example",
+                    "unsigned": {"age": 5}, "content": Value::Object(c)
+                }));
+                if v <= 2 {
+                    ev.insert("event_id".into(), to_val(json!("$e:a.example")));
+                }
+                let Some(required) = spec_servers(v, &ev) else { continue };
+                let mut signers: Vec<Signer> = required.iter().map(|s| new_signer(rng, s)).collect();
+                if signers.is_empty() {
+                    signers.push(new_signer(rng, "extra.example"));
+                }
+                let keys = keymap_of(&signers);
+                let mut ok = true;
+                for s in &signers {
+                    ok &= hash_and_sign_event(&s.entity, &key_pair(&s.seed, &s.version), &mut ev, &r.redaction).is_ok();
+                }
+                if !ok {
+                    continue;
+                }
+                out.push(verify_req(v, "signed", &keys, &ev, "verify.cell-signed"));
+                let Ok(red) = redact(ev.clone(), &r.redaction, None) else { continue };
+                let tag_of = |o: &Obj| match spec_servers(v, o) {
+                    Some(need) if need.iter().all(|s| signers.iter().any(|x| &x.entity == s)) => "redacted",
+                    _ => "free",
+                };
+                out.push(verify_req(v, tag_of(&red), &keys, &red, "verify.cell-redacted-copy"));
+                if let Ok(red2) = redact(red.clone(), &r.redaction, None) {
+                    out.push(verify_req(v, tag_of(&red2), &keys, &red2, "verify.cell-redacted-twice"));
+                }
+            }
+        }
+    }
+}
+
 /// Events whose hashed canonical form exceeds 65 535 bytes: `hash_and_sign_event` must refuse them
 /// (object untouched), and an event grown past the limit after signing — in a part redaction strips,
 /// so that the signatures stay valid — must fail in `verify_event` at the content-hash step.
@@ -1202,6 +1275,8 @@ fn gen(rng: &mut Rng, n: usize, tier: &str) -> Vec<Req> {
     }
     fixed_servers_cases(&mut v);
     fixed_third_party_invites(&mut v);
+    fixed_redaction_cells(rng, &mut v);
+    let n = n + v.len();
     while v.len() < n {
         match rng.below(10) {
             0 => gen_servers_case(rng, &mut v, false),
